@@ -118,11 +118,29 @@ def _binary_programs():
     out.append(("binop_LL", lambda t: t["L"].a + t["L"].b, False, "binop"))
     out.append(("binop_filter_other", lambda t: t["L"][t["L"].a > t["L"].b.mean()], False, "binop"))
     out.append(("where", lambda t: t["L"].a.where(t["L"].b > 1, -1), False, "binop"))
+    # nested fused groups: a collection built on an already optimised one
+    out.append(("nested_fused", lambda t: t["L"].b + _opt((t["L"].a - t["L"].b) + 1), False, "fusion"))
+    # … whose external dependencies are non-blockwise nodes appearing at different positions of the outer
+    # and the nested group
+    out.append(("nested_fused_deps", lambda t: (lambda x, y: y + _opt((x - y) + 1))(t["L"].a.cumsum(), t["L"].b.cumsum()), False, "fusion"))
+    out.append(("nested_fused_deps3", lambda t: (lambda x, y, z: (z * y) + _opt((x - z) + _opt(y - x)))(t["L"].a.cumsum(), t["L"].b.cumsum(), t["L"].a.cummax()), False, "fusion"))
+    out.append(("nested_fused3", lambda t: _opt(_opt(t["L"].a + 1) * t["L"].b) - t["L"].a, False, "fusion"))
+    # two repartitions of one frame in one graph (upwards: split keys; downwards)
+    out.append(("two_reparts_up", lambda t: _concat([_rep(t["L"], 5), _rep(t["L"], 7)]), False, "repartition"))
+    out.append(("two_reparts_mixed", lambda t: _concat([_rep(t["L"], 2), _rep(t["L"], 6)])[["a"]], False, "repartition"))
     out.append(("two_shifts", lambda t: t["L"].a.shift(1) + t["L"].a.shift(2), False, "overlap"))
     out.append(("two_diffs_frame", lambda t: t["L"][["a", "b"]].diff(1) + t["L"][["a", "b"]].shift(1), False, "overlap"))
     out.append(("shared_filter_sum", lambda t: (lambda x: x.a.sum() + x.b.sum())(t["L"][t["L"].a > 2]), False, "shared"))
     out.append(("shared_two_consumers", lambda t: (lambda x: x[["a"]].sum() + x[["a"]].count())(t["L"].assign(z=t["L"].a * 2)), False, "shared"))
     return out
+
+
+def _opt(x):
+    return x.optimize() if _dd(x) else x
+
+
+def _rep(x, n):
+    return x.repartition(npartitions=n) if _dd(x) else x
 
 
 def _concat(xs, **kw):
